@@ -11,7 +11,7 @@ import gc
 from simkit import bootstrap
 from simkit.choice import rng_for, derive, Log, pick, weighted
 from simkit.sched import Sched, SimAbort
-from simkit import simsync
+from simkit import simsync, simtime
 from simkit.shrink import shrink_list_at, replace_at
 from . import BaseEngine, Violation
 
@@ -23,7 +23,9 @@ from simkit import simnet  # noqa: E402
 
 TRACED = ('mido/ports.py', 'mido/parser.py', 'mido/tokenizer.py', 'mido/sockets.py',
           'mido/backends/_parser_queue.py', 'mido/midifiles/tracks.py', 'mido/midifiles/midifiles.py',
-          'mido/midifiles/units.py')
+          'mido/midifiles/units.py', 'mido/messages/decode.py', 'mido/messages/encode.py',
+          'mido/messages/messages.py', 'mido/messages/checks.py', 'mido/messages/specs.py',
+          'mido/midifiles/meta.py')
 KINDS = ('locked_old', 'locked_new', 'echo', 'ioport', 'multi', 'multi_yield', 'pq', 'pair')
 MSG_SHAPES = ('note_on', 'control_change', 'program_change', 'pitchwheel', 'sysex', 'sysex', 'songpos', 'note_off',
               'rt')
@@ -300,6 +302,7 @@ class PortsConc(BaseEngine):
         if getattr(self, '_saved_sock', None):
             msock.socket, msock.select = self._saved_sock
             self._saved_sock = None
+        simtime.deactivate()
         simsync.set_sched(None)
         _CUR['sched'] = None
         if not gc.isenabled():
@@ -340,6 +343,7 @@ class PortsConc(BaseEngine):
             self._net = net
         simsync.set_sched(sched)
         _CUR['sched'] = sched
+        simtime.activate(lambda: sched.now, mports.time.sleep)
         gc.disable()
         viol = None
         try:
@@ -745,13 +749,6 @@ class PortsConc(BaseEngine):
                 seq = [snap_msg(m) for m in mf]
                 ln = repr(mf.length)
                 twin_ref[si] = [seq, ln, seq, ln]
-        if kind == 'twin_parsers':
-            from mido.parser import Parser
-            for si, w in enumerate(plan['wires']):
-                try:
-                    twin_ref[si] = [snap_msg(m) for m in Parser(list(w))]
-                except Exception:
-                    twin_ref[si] = None
         for si in range(n_send):
             sched.spawn(f'S{si}', sender_body(si))
         for ri in range(len(plan['receivers'])):
@@ -825,6 +822,14 @@ class PortsConc(BaseEngine):
             stats['probe:twin_file_threads'] += 1
             return
         if kind == 'twin_parsers':
+            # the references are computed only now, sequentially: nothing may have decoded a message in this
+            # process before the threads did (first-use initialisation is part of what the threads race for)
+            from mido.parser import Parser
+            for si, w in enumerate(plan['wires']):
+                try:
+                    twin_ref[si] = [snap_msg(m) for m in Parser(list(w))]
+                except Exception:
+                    twin_ref[si] = None
             if sched.abort_reason not in ('stepcap',):
                 for si, outs in sorted(twin_out.items()):
                     ref = twin_ref.get(si)
